@@ -11,7 +11,12 @@ budget is written only by the constructor and by judged writes: the accounted
 deduction of a read, or a store that forces it to 0 on a path whose facts prove
 that a read asked for something other than 0 bytes came back empty (read(0)
 returns b'' too).  ASGI (falcon.asgi.stream.BoundedStream):
-R4 per-path conservation in the receive loops, and every normal return of
+R4 per-path conservation in the receive loops -- including the position: per
+event it advances by exactly min(len(body), budget) where data is discarded
+(exhaust) and never by more than the budget admits anywhere (`_pos +
+max(budget, 0)` does not grow, so tell() <= Content-Length; the post-loop
+normalisation of the budget is no substitute, the position is never
+normalised) -- and every normal return of
 exhaust() / readall() / the body iterator leaves the receive buffer empty and
 the budget at 0 (exhaust advancing the position by the buffered bytes it
 drops); R5 termination, R6 lazy wrapping on both request classes.
@@ -1064,6 +1069,6 @@ def check(run):
     run.rule('R1', r1_single_gate, 'WSGI: every raw-stream use is a clamped, accounted read', floor=2)
     run.rule('R2', r2_clamp_domain, 'WSGI: the clamp covers the whole domain of the size argument', floor=6)
     run.rule('R3', r3_accounting, 'WSGI: the amount deducted is the number of bytes obtained; decisions about consumption rest on bytes obtained; the budget is forced to 0 only on a proven end of stream', floor=5)
-    run.rule('R4', r4_conservation, 'ASGI: per-path conservation in the receive loops; draining operations leave nothing in the buffer', floor=15)
+    run.rule('R4', r4_conservation, 'ASGI: per-path conservation in the receive loops (bytes handed on, budget, position <= Content-Length); draining operations leave nothing in the buffer', floor=15)
     run.rule('R5', r5_termination, 'ASGI: loops end on disconnect / missing keys; constructor clamps', floor=10)
     run.rule('R6', r6_lazy, 'lazy, memoised wrapping from Content-Length', floor=4)
